@@ -115,16 +115,16 @@ M2_CODE = """
     #[kani::proof] #[kani::unwind(8)] fn m2_zero_height() { m2_run(2, 0) }
 """
 
-HS = [dict(name=n, kind="complete", covers=1, timeout=600, claim="%s -> %s conversion is monotone non-decreasing on its whole domain (NaN excluded)" % (s, d))
+HS = [dict(name=n, kind="complete", covers=1, timeout=600, props=["C17", "C16"], claim="%s -> %s conversion is monotone non-decreasing on its whole domain (NaN excluded)" % (s, d))
       for n, s, d in [("m1_mono_u8_u16", "u8", "u16"), ("m1_mono_u8_i32", "u8", "i32"), ("m1_mono_u8_f32", "u8", "f32"),
                       ("m1_mono_u16_u8", "u16", "u8"), ("m1_mono_u16_i32", "u16", "i32"), ("m1_mono_u16_f32", "u16", "f32"),
                       ("m1_mono_i32_u8", "i32", "u8"), ("m1_mono_i32_u16", "i32", "u16"), ("m1_mono_i32_f32", "i32", "f32"),
                       ("m1_mono_f32_u8", "f32", "u8"), ("m1_mono_f32_u16", "f32", "u16"), ("m1_mono_f32_i32", "f32", "i32")]]
 HS += [
-    dict(name="m1_endpoints", kind="complete", timeout=300, claim="min -> min and max -> max for every conversion pair (i32 range [0,MAX] vs unsigned, [MIN,MAX] vs f32)"),
-    dict(name="m1_endpoints_unsigned_to_i32_max", kind="complete", timeout=300, claim="u8/u16 -> i32 maps the maximum to i32::MAX (literal reading of C17)"),
-    dict(name="m1_roundtrip_widening", kind="complete", timeout=600, claim="widening then narrowing returns the original value for all 256 / 65536 values, 5 type pairs"),
-    dict(name="m1_float_saturates", kind="complete", covers=2, timeout=600, claim="f32 input (NaN, +-inf, out of range) saturates, never wraps or panics; i32 -> f32 stays in [-1,1]"),
+    dict(name="m1_endpoints", kind="complete", timeout=300, props=["C17", "C16"], claim="min -> min and max -> max for every conversion pair (i32 range [0,MAX] vs unsigned, [MIN,MAX] vs f32)"),
+    dict(name="m1_endpoints_unsigned_to_i32_max", kind="complete", timeout=300, props=["C17"], claim="u8/u16 -> i32 maps the maximum to i32::MAX (literal reading of C17)"),
+    dict(name="m1_roundtrip_widening", kind="complete", timeout=600, props=["C17", "C16"], claim="widening then narrowing returns the original value for all 256 / 65536 values, 5 type pairs"),
+    dict(name="m1_float_saturates", kind="complete", covers=2, timeout=600, props=["C17"], claim="f32 input (NaN, +-inf, out of range) saturates, never wraps or panics; i32 -> f32 stays in [-1,1]"),
 ]
 
 UNIT = dict(
@@ -135,7 +135,7 @@ UNIT = dict(
                    for s, d in [("u8", "u16"), ("u8", "i32"), ("u8", "f32"), ("u16", "u8"), ("u16", "i32"), ("u16", "f32"),
                                 ("i32", "u8"), ("i32", "u16"), ("i32", "f32"), ("f32", "u8"), ("f32", "u16"), ("f32", "i32")]],
         modules=[dict(file=F, name="fv_m1", code=CODE), dict(file="src/change_components_type.rs", name="fv_m2", code=M2_CODE)],
-        harnesses=HS + [dict(name=n, kind="bounded", timeout=600, bound="src 2x2 U8x2 (all contents), dst U16x2 of the stated size with one spare pixel", claim=c) for n, c in [
+        harnesses=HS + [dict(name=n, kind="bounded", timeout=600, props=["C17", "C05"], bound="src 2x2 U8x2 (all contents), dst U16x2 of the stated size with one spare pixel", claim=c) for n, c in [
             ("m2_same_size", "every destination component is into_component of the source component; spare pixel untouched"),
             ("m2_width_differs", "different width (same height) is rejected, destination untouched"),
             ("m2_height_differs", "different height (same width) is rejected, destination untouched"),
